@@ -16,6 +16,8 @@ PIPE_NOTE = ('Trusted: the simulator (SimLoop keeps asyncio FIFO order; time mov
              "ndn's own network-layer decoders. Sampled, not exhaustive; abstains within 1.5 ms of a deadline tie.")
 
 ENGINES_META = [
+    {'name': 'keychain', 'path': 'engines/keychain.py', 'serves_properties': ['C15'],
+     'kind_free_text': 'KeychainSqlite3 + TpmFile over a fault-injecting storage seam; per-history enumeration of error and crash points'},
     {'name': 'sigs', 'path': 'engines/sigs.py', 'serves_properties': ['C02'],
      'kind_free_text': 'consumer + producer NDNApp joined by a simulated link with a corrupting middlebox; recording signers/verifiers'},
     {'name': 'clientconf', 'path': 'engines/clientconf.py', 'serves_properties': ['C20'],
@@ -161,6 +163,30 @@ CHECKS['C02'] = dict(
     stub=STUB_COMMON + ['ECDSA nonce source (seeded randfunc via sha256_ecdsa_signer.DSS rebinding)', 'the link and its corrupting middlebox'],
     rule='seed -> 1-5 flows (direction, signer, key, name, payload size class incl. 253/65536 boundaries, one mutation or none, '
          'matching or wrong-key verifier); non-trivial: >=1 mutated packet; distinct = order signature of flow kinds')
+
+
+CHECKS['C15'] = dict(
+    engine='keychain', design_ref='5 (C15)', level='fault_enumeration',
+    technique='seeded operation histories + enumeration of an error fault and a crash at every storage step of each sampled '
+              'history (SQLite proxy connection, private-key file seam), reference-model oracle with adopt-and-repeat under faults',
+    text='For each sampled history of keychain operations the fault-free run is checked operation by operation against a '
+         'reference model (mapping views: iteration/len/in/[] agree and are scoped to their owner; at most one default per '
+         'scope; deletes remove everything beneath incl. the private key file; every get_signer argument shape yields a signer '
+         'whose signature verifies under the selected key and names the selected certificate). Then the history is re-run once '
+         'per storage step with an I/O error there and once with a crash there (all steps, capped at 200 points): untouched '
+         'entities must be unchanged, the views must stay consistent, and repeating the failed operation must complete it or '
+         'refuse cleanly on a store that already shows its full effect.',
+    note="Trusted: SQLite's own atomicity (a crash = uncommitted work disappears; torn database pages are not injected, torn "
+         'private-key files are), the reference model, pycryptodomex. RSA key generation is served from a committed key pool; EC '
+         'key generation and ECDSA nonces use a seeded random source. str-typed key/cert names in sign_args are not generated.',
+    real=['ndn.security.keychain.keychain_sqlite3 (KeychainSqlite3, Identity, Key, Certificate, INITIALIZE_SQL)', 'ndn.security.tpm.tpm_file.TpmFile',
+          'ndn.security.tpm.tpm.Tpm.construct_key_name', 'ndn.app_support.security_v2 (self_sign, derive_cert)', 'ndn.security.signer (ECDSA, RSA, digest)',
+          'ndn.encoding', 'SQLite 3 (real database file in a scratch directory under /dev/shm)'],
+    stub=['sqlite3 module object inside keychain_sqlite3 (proxy connection counting/failing storage steps over a real connection)',
+          'tpm_file.open / tpm_file.os.remove (fault-injecting wrappers over the real files)', 'RSA.generate (key pool), ECC.generate randfunc, ECDSA nonces, key-id bytes (seeded)',
+          'wall clock (utils.time, security_v2.datetime)'],
+    rule='seed -> history of 3-14 (thorough: 3-25) operations; evaluations = sampled histories, each run 1 + 2K times (K = its '
+         'storage steps); non-trivial: >=3 operations and >=4 storage steps; distinct = hash of the operation-kind sequence')
 
 
 def run_check(prop, tier):
